@@ -24,6 +24,9 @@ RULE = (
     "elements (per-item per-axis spacing, N=2, float64) and (spacing=None, N=1, float32) on the other shapes of the quick tier); per element every basis field "
     "(E_ij x, e_i, x_i x_j e_k, generic), every key request (all, each single key, each pair, order=, short forms) and "
     "every function (flow_derivatives, spatial_derivatives, jacobian_matrix/dict/det, divergence, curl, lie_bracket); "
+    "memory layout: the field given to flow_derivatives (order 1, 2) / spatial_derivatives / jacobian_det / jacobian_dict / divergence / curl in modes "
+    "central, default, sobel, bspline and the tensor-valued spacing, as transposed view, step-sliced view and stride-0 expanded batch, must give the result of "
+    "the contiguous form and stay unchanged; "
     "distinct = (sub-check, configuration, field, request); non-trivial = the analytic value judged is not identically zero"
 )
 EXPLANATION = "exhaustive product-lattice exploration of the derivative operators against analytic polynomial / spline derivatives"
@@ -42,7 +45,7 @@ ASSUMPTIONS = [
 # vacuity guard: about half of what the quick tier measures (43 738 non-trivial cases, 34 537 outcomes); thorough is a superset
 MIN_NONTRIVIAL = {"quick": 21000, "thorough": 60000}
 MIN_OUTCOMES = {"quick": 17000, "thorough": 40000}
-MIN_SUB_TRACES = {"fd1": 2300, "fd2": 1900, "bspline": 450, "keys": 4500, "jac": 1800, "det": 1100, "div": 1800, "curl": 1800, "lie": 2000, "sd": 8500, "seq": 360}
+MIN_SUB_TRACES = {"fd1": 2300, "fd2": 1900, "bspline": 450, "keys": 4500, "jac": 1800, "det": 1100, "div": 1800, "curl": 1800, "lie": 2000, "sd": 8500, "seq": 360, "layout": 180}
 
 EPS = {"f32": 2.0 ** -23, "f64": 2.0 ** -52}
 DT = {"f32": torch.float32, "f64": torch.float64}
@@ -200,6 +203,8 @@ class Built:
 def sig_of(case, fn, kind):
     cfg = case["cfg"]
     extra = f"/req={case['req']['form']}" if "req" in case and case["sub"] in ("keys", "sd") else ""
+    if case["sub"] == "layout":
+        return f"C12/layout/fn={case['fn']}/mode={cfg['mode']}/D={cfg['D']}/operand={case['operand']}/layout={case['layout']}/{kind}"
     if case.get("after"):
         extra += f"/family={case['family']}/then={case['then']}/after={case['after']}"
     return f"C12/{case['sub']}/fn={fn}/mode={cfg['mode']}/D={cfg['D']}/sp={cfg['sp']}{extra}/{kind}"
@@ -629,6 +634,98 @@ def case_sd(J: Judge, case):
                 J.close("spatial_derivatives", f"value/order={o}", f"{key} channel {c} item {i}", a[(i, c) + reg], exp[reg], tol)
 
 
+LAYOUT_FNS = ["flow_derivatives/order=1", "flow_derivatives/order=2", "spatial_derivatives", "jacobian_det", "jacobian_dict", "divergence", "curl"]
+LAYOUT_MODES = ["central", "default", "sobel", "bspline"]
+LAYOUT_FORMS = ["transposed", "sliced", "expanded"]
+
+
+def fingerprint(t):
+    return (t._version, tuple(t.shape), tuple(t.stride()), t.detach().clone().contiguous().numpy().tobytes())
+
+
+def case_layout(J: Judge, case):
+    """Same values, other memory layout of a user tensor (field or tensor-valued spacing): no exception, result equal to the
+    result with contiguous arguments, arguments unchanged (bits and _version)."""
+    from deepali.core import flow as U
+    from deepali.core.image import spatial_derivatives
+    from ref.layout import applicable, relayout
+
+    cfg, fname, operand, form = case["cfg"], case["fn"], case["operand"], case["layout"]
+    D, N = cfg["D"], cfg["N"]
+    f = P.generic_field(D, cfg.get("seed", 0), 2, 0)
+    B = Built(cfg, [f] * N)  # batch-invariant field (needed for the stride-0 batch); items differ by the per-item spacing only
+    kw = B.kwargs()
+    u_ref, u_tst = B.u.clone().contiguous(), B.u.clone().contiguous()
+    sp_ref = sp_tst = kw["spacing"]
+    if operand == "field":
+        if form == "expanded":
+            item = B.u[0]
+            u_ref, u_tst = relayout(item, "repeat", N), relayout(item, "expanded", N)
+        else:
+            if not applicable(B.u, form):
+                J.undef.append("layout variant not applicable")
+                return
+            u_tst = relayout(B.u, form)
+    else:
+        sp = kw["spacing"]
+        if not isinstance(sp, torch.Tensor):
+            raise AssertionError("spacing operand must be a tensor form")
+        if form == "expanded":
+            row = sp[0] if sp.ndim == 2 else sp
+            if sp.ndim == 2:
+                sp_ref, sp_tst = relayout(row, "repeat", N), relayout(row, "expanded", N)
+            else:
+                J.undef.append("layout variant not applicable")
+                return
+        else:
+            if not applicable(sp, form):
+                J.undef.append("layout variant not applicable")
+                return
+            sp_ref, sp_tst = relayout(sp, "contig"), relayout(sp, form)
+    if operand == "field" and u_tst.is_contiguous() and form != "contig":
+        J.undef.append("layout variant is contiguous for this shape")
+        return
+
+    def call(u, sp):
+        k = dict(kw, spacing=sp)
+        if fname.startswith("flow_derivatives"):
+            return U.flow_derivatives(u, order=int(fname[-1]), **k)
+        if fname == "spatial_derivatives":
+            return spatial_derivatives(u, which=["x", "yx", "yy"], **k)
+        if fname == "jacobian_dict":
+            return {f"{r}{c}": v for (r, c), v in U.jacobian_dict(u, add_identity=True, **k).items()}
+        return {"value": getattr(U, fname)(u, **k)}
+
+    ref = J.call(call, fname, u_ref, sp_ref)
+    if ref is None:
+        return
+    tensors = [t for t in (u_tst, sp_tst) if isinstance(t, torch.Tensor)]
+    before = [fingerprint(t) for t in tensors]
+    J.trans += 1
+    st, res = guarded(call, u_tst, sp_tst)
+    if st == "raises":
+        J.bad(fname, "raises=" + type(res).__name__, exc_text(res))
+        return
+    if [fingerprint(t) for t in tensors] != before:
+        J.bad(fname, "operand-mutated", "the argument tensor (bits / _version) was changed by the call")
+    if sorted(res.keys()) != sorted(ref.keys()):
+        J.bad(fname, "keys", f"keys {sorted(res.keys())} vs contiguous {sorted(ref.keys())}")
+        return
+    o = 2 if fname in ("flow_derivatives/order=2", "spatial_derivatives") else 1
+    tol = C * EPS[cfg["dtype"]] * max(B.umax, 1e-30) * 2.0 ** o / B.hmin ** o * (1.0 + (max(B.umax, 1.0) / B.hmin) ** (D - 1) if fname == "jacobian_det" else 1.0)
+    exact = True
+    for k_ in ref:
+        a, b = res[k_], ref[k_]
+        if tuple(a.shape) != tuple(b.shape):
+            J.bad(fname, "shape", f"{k_}: shape {tuple(a.shape)} vs contiguous {tuple(b.shape)}")
+            continue
+        x, y = a.detach().double().numpy(), b.detach().double().numpy()
+        exact = exact and np.array_equal(x, y)
+        J.close(fname, "value", f"{k_}: layout {form} vs contiguous", x, y, tol)
+        J.outcomes.append((k_, form, np.round(x, 4).tobytes()))
+    J.exact = exact
+
+
 def case_seq(J: Judge, case):
     """Call sequence [configuration X, then configuration Y] in one process: the stateless API must answer Y as in a fresh
     process.  Only the LAST step is judged (with the tolerance of its own dtype); the case holds the whole sequence."""
@@ -642,7 +739,7 @@ def case_seq(J: Judge, case):
 
 DISPATCH = {
     "fd1": case_fd, "fd2": case_fd, "bspline": case_bspline, "keys": case_keys, "jac": case_jac,
-    "det": case_det, "div": case_div, "curl": case_curl, "lie": case_lie, "sd": case_sd, "seq": case_seq,
+    "det": case_det, "div": case_div, "curl": case_curl, "lie": case_lie, "sd": case_sd, "seq": case_seq, "layout": case_layout,
 }
 
 
@@ -828,6 +925,30 @@ def cases_of(shard):
     out = []
     if kind == "seq":
         return seq_cases(shard)
+    if kind == "layout":
+        shp = [6, 7] if D == 2 else [5, 6, 7]
+        for fname in LAYOUT_FNS:
+            for m in LAYOUT_MODES:
+                for form in LAYOUT_FORMS:
+                    for dt in ("f32", "f64"):
+                        c = {"D": D, "shape": shp, "sp": "ND", "mode": m, "N": 2, "dtype": dt, "seed": seed}
+                        if m == "bspline":
+                            c["stride"] = 2
+                        if fname == "spatial_derivatives":
+                            c["image"] = True
+                        out.append({"sub": "layout", "fn": fname, "cfg": c, "operand": "field", "layout": form})
+        # tensor-valued spacing: (N, D) float32 tensor, (1, D) row as stride-0 batch, 1-D vector
+        for fname in ("flow_derivatives/order=1", "spatial_derivatives", "jacobian_det", "divergence"):
+            for m in ("central", "bspline"):
+                for spf, forms in (("ND", ["transposed", "sliced"]), ("1D", ["sliced", "expanded"]), ("vec_tensor", ["sliced"])):
+                    for form in forms:
+                        c = {"D": D, "shape": shp, "sp": spf, "mode": m, "N": 2, "dtype": "f64", "seed": seed}
+                        if m == "bspline":
+                            c["stride"] = 2
+                        if fname == "spatial_derivatives":
+                            c["image"] = True
+                        out.append({"sub": "layout", "fn": fname, "cfg": c, "operand": "spacing", "layout": form})
+        return out
 
     def cfg(sp, N, dt, stride=None):
         c = {"D": D, "shape": shape, "sp": sp, "mode": mode, "N": N, "dtype": dt, "seed": seed}
@@ -954,6 +1075,7 @@ def shards(tier: str, seed: int):
             for shape in kshapes:
                 for k in range(nparts):
                     out.append({"tier": tier, "seed": seed, "D": D, "mode": mode, "shape": list(shape), "kind": "keys", "part": k, "nparts": nparts})
+        out.append({"tier": tier, "seed": seed, "D": D, "kind": "layout"})
         # call sequences [X, Y]: one shard (= one fresh process) per family x first configuration X; inside, all Y (float64 first)
         for family in SEQ_FAMILIES:
             for x in SEQ_CONFIGS:
@@ -982,6 +1104,7 @@ def bounds(tier):
         "det_matrices": {"D2": len(det_matrices(2, 0)), "D3": len(det_matrices(3, 0))},
         "lie_pairs": {"D2": 49, "D3": 169},
         "key_requests": {"D2": len(key_requests(2, tier, "central")), "D3": len(key_requests(3, tier, "central"))},
+        "layout": {"functions": LAYOUT_FNS, "modes": LAYOUT_MODES, "forms": LAYOUT_FORMS, "operands": ["field (N=2, float32 and float64)", "spacing tensor (N,D) / (1,D) / (D,)"], "D": [2, 3]},
         "call_sequences": {"depth": 2, "families": SEQ_FAMILIES, "step_configurations": [seq_label(c) for c in SEQ_CONFIGS],
                            "variants": ["same-shape", "other-shape-first"], "ordered_pairs_per_family_and_D": len(SEQ_CONFIGS) ** 2},
         "shards": len(sh),
@@ -1007,6 +1130,10 @@ def run_shard(shard) -> Acc:
             acc.outcome(case["sub"], case["cfg"]["mode"], case.get("after", ""), *o)
         if J.nontrivial:
             acc.nontriv(state_key(case))
+        for r in J.undef:
+            acc.undef(r)
+        if case["sub"] == "layout":
+            acc.info["layout_bit_identical" if getattr(J, "exact", False) else "layout_within_tolerance_or_failed"] = acc.info.get("layout_bit_identical" if getattr(J, "exact", False) else "layout_within_tolerance_or_failed", 0) + 1
         for sig, detail in J.out:
             acc.violation(sig, case, detail, size=case["cfg"]["D"] * 100 + case["cfg"]["N"] * 10 + int(np.prod(case["cfg"]["shape"])) // 50)
         if len(acc.samples) < 2 and case["sub"] == "seq":
